@@ -29,7 +29,7 @@ ASSUMPTIONS = ['thread schedules are sampled (sys.setswitchinterval(1e-6)), not 
 SHARDS = {'quick': (16, 90), 'thorough': (16, 2500)}
 BUDGET = {'quick': 100, 'thorough': 1500}
 MIN_NONTRIVIAL = {'quick': 300, 'thorough': 5000}
-CFG = {'long_str_pct': 0, 'max_depth': 2, 'any': False, 'real10_pct': 0, 'max_comps': 3}
+CFG = {'long_str_pct': 0, 'max_depth': 3, 'any': False, 'real10_pct': 0, 'max_comps': 3, 'constructed_default_pct': 35}
 
 
 def shards(tier):
@@ -205,6 +205,13 @@ def with_debug(fn):
         debug.setLogger(None)
 
 
+def _native(obj):
+    try:
+        return repr(nenc.encode(obj))
+    except Exception as e:
+        return 'raises:' + type(e).__name__
+
+
 def mutate_all(T, obj):
     """Change every mutable node of a decoded result (used to show that results share nothing)."""
     try:
@@ -212,6 +219,8 @@ def mutate_all(T, obj):
         if k in ir.RECORD_KINDS:
             for idx, c in enumerate(T['comps']):
                 comp = obj.getComponentByPosition(idx, default=None, instantiate=False)
+                if (comp is None or comp is _base.noValue) and c['p'] == 'def':
+                    comp = obj.getComponentByPosition(idx)      # the documented way to read a DEFAULT that was left out
                 if comp is not None and comp is not _base.noValue:
                     mutate_all(c['t'], comp)
             obj.clear()
@@ -286,9 +295,16 @@ def run_case(case):
                     F('decode-shares', codec, 'two decodings returned the same object / the guiding type itself | %s' % desc[i])
                     continue
                 before = snapshot(T, d2.value, sch)
+                nat0 = _native(d2.value)
                 mutate_all(T, d1.value)
                 if snapshot(T, d2.value, sch) != before:
                     F('decode-shares', codec, 'mutating one decoded result changed another one | %s' % desc[i])
+                # components left to their DEFAULT are read through the schema: the native form shows them
+                d3 = lib.decode(codec, data, sch)
+                if _native(d2.value) != nat0 or (d3.ok and _native(d3.value) != nat0):
+                    F('decode-shares', codec, 'mutating one decoded result (DEFAULT components read and emptied) changed what another / a '
+                      'later result reports: %s -> %s / %s | %s' % (nat0[:80], _native(d2.value)[:80], _native(d3.value)[:80] if d3.ok else '-', desc[i]),
+                      sig='defaults')
                 if snapshot(T, sch) != t0:
                     F('decode-shares', codec, 'mutating a decoded result changed the guiding type | %s' % desc[i])
                     t0 = snapshot(T, sch)
